@@ -1,12 +1,149 @@
 /-
-  Line-protocol handlers for C20.  `handle` receives the tokens after the property id.
+  Line-protocol handlers for C20 (CSV search log).  `handle` receives the tokens after the
+  property id.
+
+  Encodings
+    name   : `Execution_Time` | `Phenotype` | `Fitness<k>` | `c<n>`
+    cell   : `T` (a wall-clock float) | `(p prog)` | `(f v)` | `(u cb ind)` | `(x cb prog)` | `err`
+    fields : `default` | `((name cb) …)`        extras : `((name cb) …)`
+    events : `((id prog (comps…) best) …)`
+    file   : `(row …)`, a row being a list of names (header) or of cells
+  Model ops
+    (recorder binding k fields extras onlyBest events)   -- binding: fixed | late
+    (simplegp binding k csvExtras onlyBest events)
+        → the parsed disk content after construction and after each registration
+    (recorder_last …), (simplegp_last …) → the parsed disk content after the last registration only
+    (track_flags (aggregates…)) → the single-objective tracker's is_best flags
+  Property predicates on the REAL file
+    (prop_file recorder|simplegp k fields extras onlyBest events file)
 -/
 import GEVerif.Model.Sexp
+import GEVerif.Model.Csv
 
 namespace GEVerif.Drive.C20
-open GEVerif Sexp
+open GEVerif Sexp GEVerif.Csv
+
+def natSuffix (pre s : String) : Option Nat :=
+  if s.startsWith pre then (s.drop pre.length).toNat? else none
+
+def parseName : Sexp → Option Name
+  | atom "Execution_Time" => some .time
+  | atom "Phenotype" => some .pheno
+  | atom s =>
+    match natSuffix "Fitness" s with
+    | some k => some (.fitness k)
+    | none => (natSuffix "c" s).map .custom
+  | _ => none
+
+def nameSx : Name → Sexp
+  | .time => atom "Execution_Time"
+  | .pheno => atom "Phenotype"
+  | .fitness k => atom s!"Fitness{k}"
+  | .custom n => atom s!"c{n}"
+
+def cellSx : Cell → Sexp
+  | .time => atom "T"
+  | .pheno p => list [atom "p", ofNat p]
+  | .fit v => list [atom "f", ofInt v]
+  | .user cb i => list [atom "u", ofNat cb, ofNat i]
+  | .extra cb p => list [atom "x", ofNat cb, ofNat p]
+  | .err => atom "err"
+
+/-- anything unrecognised in the real file becomes `err`, which no specification cell equals
+(specifications only produce `err` for a missing fitness component, which the harness never
+generates) -/
+def parseCell : Sexp → Cell
+  | atom "T" => .time
+  | list [atom "p", p] => match p.asNat? with | some p => .pheno p | none => .err
+  | list [atom "f", v] => match v.asInt? with | some v => .fit v | none => .err
+  | list [atom "u", cb, i] => match cb.asNat?, i.asNat? with | some cb, some i => .user cb i | _, _ => .err
+  | list [atom "x", cb, p] => match cb.asNat?, p.asNat? with | some cb, some p => .extra cb p | _, _ => .err
+  | _ => .err
+
+def parseNamed (s : Sexp) : Option (List (Name × Nat)) := do
+  let xs ← s.asList?
+  xs.mapM fun p => do
+    match p with
+    | list [n, cb] => pure (← parseName n, ← cb.asNat?)
+    | _ => none
+
+def parseFields : Sexp → Option (Option (List (Name × Nat)))
+  | atom "default" => some none
+  | s => (parseNamed s).map some
+
+def parseEvents (s : Sexp) : Option (List Ev) := do
+  let xs ← s.asList?
+  xs.mapM fun e => do
+    match e with
+    | list [id, prog, comps, best] =>
+      pure (Ev.reg 0 { id := ← id.asNat?, prog := ← prog.asNat?, comps := ← comps.asInts? } (← best.asBool?))
+    | _ => none
+
+def parseBinding : Sexp → Option Binding
+  | atom "fixed" => some .perClosure
+  | atom "late" => some .late
+  | _ => none
+
+def symSx : Sym → Sexp
+  | .name n => nameSx n
+  | .cell c => cellSx c
+  | .eol => atom "EOL"
+
+/-- the disk content as the harness sees it: complete lines, plus a marker for a partial one -/
+def diskSx (disk : List Sym) : Sexp :=
+  let (ls, t) := splitEol disk
+  list (ls.map (fun l => list (l.map symSx)) ++ (if t.isEmpty then [] else [list (atom "partial" :: t.map symSx)]))
+
+/-- snapshots after construction and after every event -/
+def snapshots (r : Recorder) (evs : List Ev) : List Sexp :=
+  let rec go (r : Recorder) : List Ev → List Sexp
+    | [] => []
+    | e :: rest => let r' := r.step e; diskSx r'.file.disk :: go r' rest
+  diskSx r.file.disk :: go r evs
+
+/-- the property, evaluated on a parsed real file: one column per configured field, one complete
+row per recorded individual, every cell as specified -/
+def fileOk (k : Nat) (fields : Option (List (Name × Nat))) (extras : List (Name × Nat))
+    (mkExtra : Nat → Ind → Cell) (onlyBest : Bool) (evs : List Ev) (file : List Sexp) : Sexp :=
+  let cols := specColumns k fields extras
+  let inds := recorded onlyBest evs
+  match file with
+  | [] => atom "no-header"
+  | hd :: rows =>
+    if hd != list (cols.map nameSx) then atom "header-differs"
+    else if rows.length != inds.length then atom "row-count-differs"
+    else
+      let ok := (rows.zip inds).all fun (row, i) =>
+        match row with
+        | list cells =>
+          cells.length == cols.length &&
+          (cells.zip cols).all fun (c, n) =>
+            specCell k fields extras (fun cb i => Cell.user cb i.id) mkExtra n i == some (parseCell c)
+        | _ => false
+      if ok then ofBool true else atom "cell-differs"
 
 def handle : List Sexp → Option Sexp
+  | [atom "recorder", b, k, fields, extras, onlyBest, events] => do
+      let cfg := recorderConfig (← k.asNat?) (← parseFields fields) (← parseNamed extras) (← onlyBest.asBool?)
+      pure (list (snapshots (Recorder.new (← parseBinding b) cfg 0) (← parseEvents events)))
+  | [atom "simplegp", b, k, extras, onlyBest, events] => do
+      let cfg := simpleGPConfig (← parseBinding b) (← k.asNat?) (← parseNamed extras) (← onlyBest.asBool?)
+      pure (list (snapshots (Recorder.new .perClosure cfg 0) (← parseEvents events)))
+  | [atom "recorder_last", b, k, fields, extras, onlyBest, events] => do
+      let cfg := recorderConfig (← k.asNat?) (← parseFields fields) (← parseNamed extras) (← onlyBest.asBool?)
+      pure (diskSx ((Recorder.new (← parseBinding b) cfg 0).run (← parseEvents events)).file.disk)
+  | [atom "simplegp_last", b, k, extras, onlyBest, events] => do
+      let cfg := simpleGPConfig (← parseBinding b) (← k.asNat?) (← parseNamed extras) (← onlyBest.asBool?)
+      pure (diskSx ((Recorder.new .perClosure cfg 0).run (← parseEvents events)).file.disk)
+  | [atom "track_flags", aggs] => do
+      pure (list ((trackFlags none (← aggs.asInts?)).map ofBool))
+  | [atom "prop_file", atom kind, k, fields, extras, onlyBest, events, file] => do
+      let mkExtra : Nat → Ind → Cell ← match kind with
+        | "recorder" => some (fun cb i => Cell.user cb i.id)
+        | "simplegp" => some (fun cb i => Cell.extra cb i.prog)
+        | _ => none
+      pure (fileOk (← k.asNat?) (← parseFields fields) (← parseNamed extras) mkExtra
+        (← onlyBest.asBool?) (← parseEvents events) (← file.asList?))
   | _ => none
 
 end GEVerif.Drive.C20
